@@ -6,7 +6,8 @@ ID = 'C17'
 LEAN_MODULES = ['HidVerif.Props.C17']
 THEOREMS = ['HidVerif.Props.C17.' + n for n in ('write_int_correct', 'write_int_buffer_exceeds_frame', 'write_string_correct',
                                                  'write_const_byte_array_correct', 'write_state_byte_array_correct', 'write_bool_correct',
-                                                 'bytesAt_length', 'yield_exact')]
+                                                 'bytesAt_length', 'yield_exact',
+                                                 'digits_range', 'valOf_digits', 'digits_head', 'decimalW_reads_back', 'decimalW_injective')]
 TRUSTED = TRUSTED_BASE
 ASSUMPTIONS = _A
 RULE = ('theorems about Gen.code_write_* (regenerated from stdlib.py) for all w>=2 and all word values; '
